@@ -85,10 +85,17 @@ def check_region(section, mem, res, version=8, tag=''):
             desc = '%s row %d col %d: picotool wrote %r, format prescribes %r' % (
                 section, k, col, a[max(0, col - 4):col + 6], b[max(0, col - 4):col + 6])
         res.violation(sig, desc, case)
-    # text -> memory
+    # text -> memory (the rows as a list, and as one-shot iterables: an iterator, a generator)
     try:
         obj2 = cls.from_lines(list(ref_lines), version=version)
         back = bytes(obj2.to_bytes())
+        for how, src_lines in (('iterator', iter(list(ref_lines))), ('generator', (ln for ln in list(ref_lines))),
+                               ('tuple', tuple(ref_lines))):
+            alt = bytes(cls.from_lines(src_lines, version=version).to_bytes())
+            if alt != back:
+                res.violation('C16|%s|from_lines|%s-differs' % (section, how),
+                              '%s.from_lines gives other bytes when the same rows arrive as %s instead of a list' % (section, how), case)
+                return
     except Exception as e:
         res.violation('C16|%s|from_lines|raise|%s' % (section, type(e).__name__),
                       '%s.from_lines raised %r' % (section, e), case)
